@@ -92,7 +92,7 @@ mod verif_replay_m {
 '''
 
 
-def search(repo):
+def _search(repo):
     rc, outp = run_test_module(MODULE, 'verif_replay_m::probes', repo)
     res = {'probe_values': 0, 'anomalies': []}
     for line in outp.splitlines():
@@ -106,3 +106,14 @@ def search(repo):
     if res['probe_values'] == 0:
         res['error'] = outp[-2000:]
     return res
+
+
+_MEMO = {}
+
+
+def search(repo, *a, **kw):
+    """one run of the harness per check process and tree (the result is shared by all obligations it decides)"""
+    key = (repo, a, tuple(sorted(kw.items())))
+    if key not in _MEMO:
+        _MEMO[key] = _search(repo, *a, **kw)
+    return _MEMO[key]
